@@ -264,6 +264,19 @@ func (in *inst) step(c *vt.Ctx, o fsx.Op) *vt.Deviation {
 	return nil
 }
 
+// parity: path helpers and accessors of the wrapper answer as the standalone file system does
+// (Abs in particular is a path the wrapper returns: virtual).
+func (in *inst) parity() *vt.Deviation {
+	if diff := fsx.LexicalParity(in.w, in.r, parityStrs); diff != "" {
+		d := vt.Dev("prop", "C10", "fs", in.kind, "op", "helpers", "clause", "value")
+		d.Detail = fmt.Sprintf("BasePathFS(%s,%s) %s", in.kind, in.base, diff)
+		return d
+	}
+	return nil
+}
+
+var parityStrs = []string{"", ".", "..", "a", "/w/a", "../x", "/", "a/b/../c", "[a", "*", "/w//a/", "w"}
+
 func (in *inst) close() {
 	in.rw.CloseAll()
 	in.rr.CloseAll()
@@ -377,8 +390,38 @@ func TestCheck(t *testing.T) {
 			}
 			defer in.close()
 			nt := false
+			held := map[int]bool{}
 			for n := rapid.IntRange(1, 30).Draw(t, "n"); n > 0; n-- {
-				for _, o := range drawOp(t, cfg, base) {
+				ops := []fsx.Op(nil)
+				switch rapid.IntRange(0, 5).Draw(t, "what") {
+				case 0: // open a handle through a (possibly hostile) spelling and keep it
+					h := rapid.IntRange(1, 2).Draw(t, "h")
+					ps := append(hostile(base), cfg.Paths()...)
+					ops = []fsx.Op{{K: "Open", P: rapid.SampledFrom(ps).Draw(t, "op"), Flag: rapid.SampledFrom([]int{os.O_RDONLY, os.O_RDWR, os.O_RDWR | os.O_CREATE, os.O_WRONLY | os.O_APPEND}).Draw(t, "fl"), Perm: 0o644, H: h},
+						{K: "FName", H: h}, {K: "FStat", H: h}}
+					held[h] = true
+				case 1: // a call on a kept handle: names and error paths of handles are virtual too
+					h := rapid.IntRange(1, 2).Draw(t, "h")
+					if !held[h] {
+						continue
+					}
+					k := rapid.SampledFrom([]string{"FName", "FStat", "FChdir", "FRead", "FReadDir", "FReaddirnames", "FWrite", "FWriteString", "FWriteAt", "FReadAt", "FSeek", "FTruncate", "FChmod", "FChown", "FSync", "FClose"}).Draw(t, "hk")
+					o := fsx.Op{K: k, H: h, N: rapid.SampledFrom([]int{0, 2, 64}).Draw(t, "n"), Data: "h", Off: rapid.SampledFrom([]int64{-1, 0, 3}).Draw(t, "off"),
+						Size: rapid.SampledFrom([]int64{-1, 0, 5}).Draw(t, "size"), Perm: 0o600, Uid: -1, Gid: -1, Whence: rapid.SampledFrom([]int{0, 2, 7}).Draw(t, "wh")}
+					ops = []fsx.Op{o}
+					if k == "FChdir" {
+						ops = append(ops, fsx.Op{K: "Getwd"}, fsx.Op{K: "Abs", P: "x"})
+					}
+					if k == "FReadDir" || k == "FReaddirnames" {
+						ops[0].N = rapid.SampledFrom([]int{-1, 0, 2}).Draw(t, "dn")
+					}
+					if k == "FClose" {
+						held[h] = false
+					}
+				default:
+					ops = drawOp(t, cfg, base)
+				}
+				for _, o := range ops {
 					cs.Ops = append(cs.Ops, o)
 					c.Label("path:" + pathClass(o.P))
 					dev := in.step(c, o)
@@ -389,6 +432,9 @@ func TestCheck(t *testing.T) {
 						nt = true
 					}
 				}
+			}
+			if dev := in.parity(); dev != nil {
+				return &vt.Failure{Dev: dev, Replay: cs}
 			}
 			if nt {
 				parts := []string{kind, base}
@@ -412,5 +458,6 @@ func kindsFor() []string {
 		}
 		ks = append(ks, k)
 	}
-	return append(ks, "Glob")
+	// Abs: a returned path is in the wrapper's own name space
+	return append(ks, "Glob", "Abs")
 }
